@@ -1,12 +1,210 @@
 import IpaVerif.Model.Util
-/-! Line-protocol handlers for property C18 (model side). Import-free. -/
+import IpaVerif.Model.Lifecycle
+/-! Line-protocol handlers for property C18 (model side + spec-side oracle). Import-free. -/
 namespace IpaVerif.Driver.C18
-open IpaVerif.Util
+open IpaVerif.Util IpaVerif.Lifecycle IpaVerif.Generated.Lifecycle
+
+def statusByName (n : String) : Option Status := allStatuses.find? (·.name == n)
+def kindByName (n : String) : Option Kind := allKinds.find? (·.name == n)
+
+def showErr : Err → String
+  | .alreadyRunning => "AlreadyRunning"
+  | .invalidState f t => s!"InvalidState:{f.name}:{t.name}"
+  | .noSuchQuery => "NoSuchQuery"
+  | .wrongTarget => "WrongTarget"
+  | .notLeader => "NotLeader"
+  | .leader => "Leader"
+  | .differentStatus m o => s!"DifferentStatus:{m.name}:{o.name}"
+  | .mpcTransport => "MpcTransport"
+  | .shardBroadcast => "ShardBroadcast"
+  | .shardError => "ShardError"
+  | .execution => "Execution"
+
+def showResp : Resp → String
+  | .ok => "ok"
+  | .started id => s!"ok:{id}"
+  | .status s => s!"ok:{s.name}"
+  | .err e => s!"err:{showErr e}"
+  | .pending id => s!"pending:{id}"
+  | .stored => "stored"
+  | .dropped => "dropped"
+  | .resolved r => s!"resolved:{showResp r}"
+  | .panic => "panic"
+
+def showPassive (s : St) : String :=
+  match s.entry with
+  | none => "none"
+  | some q => match statusOf q with
+    | some st => st.name
+    | none => "panic"
+
+def parseReplies (s : String) : Option (List Reply) :=
+  s.toList.mapM fun c => if c == 'o' then some Reply.accept else if c == 'e' then some Reply.reject else none
+
+def parseSReplies (s : String) : Option (List SReply) :=
+  s.toList.mapM fun c =>
+    if c == 'o' then some SReply.same
+    else if c == 'x' then some SReply.other
+    else if '0' ≤ c ∧ c ≤ '4' then (allStatuses[c.toNat - '0'.toNat]?).map SReply.differ
+    else none
+
+def parseOp (s : String) : Option Op :=
+  match s.splitOn ":" with
+  | ["nq", p, r] => do pure (.newQuery (← parseReplies p) (← parseReplies r))
+  | ["ph", r] => do pure (.prepareHelper (← parseReplies r))
+  | ["ph"] => some (.prepareHelper [])
+  | ["ps"] => some .prepareShard
+  | ["ri"] => some .receiveInputs
+  | ["qs", r] => do pure (.queryStatus (← parseSReplies r))
+  | ["qs"] => some (.queryStatus [])
+  | ["ss", k] => do pure (.shardStatus (← allStatuses[(← k.toNat?)]?))
+  | ["co", r] => do pure (.complete (← parseReplies r))
+  | ["co"] => some (.complete [])
+  | ["ki"] => some .kill
+  | ["to", id] => do pure (.taskReturns (← id.toNat?) .ok)
+  | ["te", id] => do pure (.taskReturns (← id.toNat?) .err)
+  | _ => none
+
+def showTr : TrOut → String
+  | .ok => "ok"
+  | .alreadyRunning => "AlreadyRunning"
+  | .invalidState f t => s!"InvalidState:{f.name}:{t.name}"
+  | .panic => "panic"
 
 /-- `some response` if the request belongs to this property, else `none`. -/
-def handle (_toks : List String) : Option String := none
+def handle (toks : List String) : Option String :=
+  match toks with
+  | ["c18.min", a, b] => some <| (do pure (minStatus (← statusByName a) (← statusByName b)).name).getD "bad-request"
+  | ["c18.tr", a, b] => some <| (do pure (showTr (transition (← kindByName a) (← kindByName b)))).getD "bad-request"
+  | ["c18.status", a] => some <| (do
+      match kindStatus (← kindByName a) with
+      | some s => pure s.name
+      | none => pure "panic").getD "bad-request"
+  | ["c18.hist", h, s, _n, ops] => some <| (do
+      let p : Pos := { helper := (← h.toNat?), leader := (← s.toNat?) == 0 }
+      let ops ← (ops.splitOn ",").mapM parseOp
+      let out := run p {} ops
+      pure (String.intercalate "," (out.map fun (r, st) => s!"{showResp r}/{showPassive st}"))).getD "bad-request"
+  | _ => none
 
-/-- Property oracle on (request, implementation response): `some "holds"`, `some "fails <why>"`, or `none`. -/
-def oracle (_toks : List String) (_impl : String) : Option String := none
+/-! ## Spec-side oracle
+
+Written from the property text only (ranks of the five statuses, which requests may create /
+remove a query, what an error may change); it looks at the implementation's responses and at the
+request, never at the model above. -/
+
+def rankOfName : String → Option Nat
+  | "Preparing" => some 0
+  | "AwaitingInputs" => some 1
+  | "Running" => some 2
+  | "AwaitingCompletion" => some 3
+  | "Completed" => some 4
+  | _ => none
+
+def nameOfRank : Nat → String
+  | 0 => "Preparing" | 1 => "AwaitingInputs" | 2 => "Running" | 3 => "AwaitingCompletion" | _ => "Completed"
+
+/-- errors that mean "this request is not valid in the current state / at this processor" -/
+def invalidClass (res : String) : Bool :=
+  ["err:AlreadyRunning", "err:InvalidState", "err:NoSuchQuery", "err:WrongTarget", "err:NotLeader",
+   "err:Leader", "err:DifferentStatus"].any (res.startsWith ·)
+
+structure OSt where
+  before : String := "none"
+  awaiting : Option Nat := none   -- task awaited by the in-flight completion of the *current* query
+
+def opName (op : String) : String := (op.splitOn ":").headD ""
+def opArg (op : String) (i : Nat) : String := ((op.splitOn ":")[i]?).getD ""
+
+/-- check one call: `op` from the request, `res/after` from the implementation. `none` = fine. -/
+def checkCall (o : OSt) (op res after : String) : Option String :=
+  let name := opName op
+  let before := o.before
+  if res.startsWith "panic" || res.startsWith "timeout" then some s!"{op}: the helper panicked or hung ({res})"
+  else if (res.splitOn "+stray").length > 1 || res == "unresolved" then some s!"{op}: a completion finished/blocked out of turn ({res})"
+  else if after == "panic" then some s!"{op}: stored state has no status"
+  else
+  -- forward only
+  match rankOfName before, rankOfName after with
+  | some a, some b =>
+    if b < a then some s!"{op}: status went backwards {before} -> {after}" else
+    if invalidClass res && !(before == after || (before == "Running" && after == "Completed")) then
+      some s!"{op}: rejected with {res} but the state changed {before} -> {after}"
+    else if (name == "nq" || name == "ph" || name == "ps") && before != after then
+      some s!"{op}: a create request changed an existing query {before} -> {after}"
+    else if name == "co" && (res == "ok" || res == "err:Execution") then
+      some s!"{op}: results handed out but the query is still there ({after})"
+    else if name == "qs" && res.startsWith "ok:" then
+      let rs := (opArg op 1).toList
+      let ranks := rs.filterMap fun c => if '0' ≤ c ∧ c ≤ '4' then some (c.toNat - '0'.toNat) else none
+      let want := ranks.foldl min b
+      if res == s!"ok:{nameOfRank want}" then none
+      else some s!"{op}: reported {res} but the least advanced status is {nameOfRank want}"
+    else if name == "ss" && res.startsWith "ok:" then
+      if res == s!"ok:{after}" && rankOfName after == (opArg op 1).toNat? then none
+      else some s!"{op}: shard reported {res} while in state {after}"
+    else none
+  | none, some _ =>
+    -- a query appeared
+    if (name == "nq" || name == "ph" || name == "ps") && res == "ok" then
+      if after == "AwaitingInputs" then none else some s!"{op}: new query starts in {after}"
+    else some s!"{op}: a query appeared ({after}) without a successful create request ({res})"
+  | some _, none =>
+    -- the query was forgotten: only by kill, by complete (results, execution error, shard error),
+    -- or when the completion that was waiting for THIS query's task returns
+    if name == "ki" && res == "ok" then none
+    else if name == "co" && (res == "ok" || res == "err:Execution" || res == "err:ShardError") then none
+    else if (name == "to" || name == "te") && res.startsWith "resolved:" then
+      if o.awaiting.isSome && o.awaiting == (opArg op 1).toNat? then none
+      else some s!"{op}: the completion of an earlier (killed) query removed the state ({before}) of the current query"
+    else some s!"{op}: the query was forgotten ({before} -> none) by a request answered {res}"
+  | none, none =>
+    if (name == "nq" || name == "ph" || name == "ps") && res == "ok" then some s!"{op}: create succeeded but left no query"
+    else if res.startsWith "ok" && name != "nq" && name != "ph" && name != "ps" then
+      some s!"{op}: answered {res} although no query exists"
+    else none
+
+def advance (o : OSt) (res after : String) : OSt :=
+  let aw :=
+    if after != "AwaitingCompletion" then none
+    else if res.startsWith "pending:" then (res.drop 8).toString.toNat?
+    else o.awaiting
+  { before := after, awaiting := aw }
+
+def checkHist (ops : List String) (resps : List String) : Option String :=
+  if ops.length != resps.length then some "number of responses differs from number of calls" else
+  let rec go (o : OSt) : List (String × String) → Option String
+    | [] => none
+    | (op, r) :: rest =>
+      match r.splitOn "/" with
+      | [res, after] =>
+        match checkCall o op res after with
+        | some why => some why
+        | none => go (advance o res after) rest
+      | _ => some s!"{op}: malformed response {r}"
+  go {} (ops.zip resps)
+
+def allowedTransition (a b : String) : Bool :=
+  (a, b) ∈ [("Empty", "Preparing"), ("Empty", "AwaitingInputs"), ("Preparing", "AwaitingInputs"), ("AwaitingInputs", "Running")]
+
+/-- Property oracle on (request, implementation response). -/
+def oracle (toks : List String) (impl : String) : Option String :=
+  match toks with
+  | ["c18.min", a, b] => some <|
+      match rankOfName a, rankOfName b with
+      | some x, some y => if impl == nameOfRank (min x y) then "holds" else s!"fails min_status({a},{b}) = {impl} is not the least advanced of the two"
+      | _, _ => "unknown"
+  | ["c18.tr", a, b] => some <|
+      if allowedTransition a b then (if impl == "ok" then "holds" else s!"fails forward transition {a} -> {b} rejected ({impl})")
+      else if impl == "ok" then s!"fails transition {a} -> {b} accepted" else "holds"
+  | ["c18.status", a] => some <|
+      if a == "Empty" then (if impl.startsWith "panic" then "holds" else "fails Empty has a status")
+      else if impl == a then "holds" else s!"fails status of {a} reported as {impl}"
+  | ["c18.hist", _, _, _, ops] => some <|
+      if impl.startsWith "timeout" then "fails the history did not finish (hang)" else
+      match checkHist (ops.splitOn ",") (impl.splitOn ",") with
+      | none => "holds"
+      | some why => s!"fails {why}"
+  | _ => none
 
 end IpaVerif.Driver.C18
